@@ -29,7 +29,7 @@ CLAIMED = {
     "C17": ("SEQ+SCHED", "Same BFS as C01: stored revision, $document.revid, $document, live and backfill RevNo all = previous + 1; plus scheduler DFS of Update/WriteSubDoc/WriteUpdateWithXattrs racing with Touch/SetXattrs: final revision = number of successful mutations.", "3/C17"),
     "C18": ("SEQ+SCHED", "Same BFS (sub-document operations over object, raw, absent, tombstone documents, CAS tokens) against a JSON-editing specification; scheduler DFS of concurrent sub-document writers and a blind Set: outcomes equal a sequential run.", "3/C18"),
     "C19": ("SEQ", "Queries world: 21 write operations over two collections (incl. nil/empty bodies, tombstones with xattrs, resurrections, WithMeta), BFS depth 3/4 in memory (pre-recorded iterator) and on disk (streaming iterator); five queries per collection compared with a Go evaluation over a key-value read-back; no connection left checked out.", "3/C19"),
-    "C20": ("SCHED", "116 scenarios: writer, feed start-up, view update_after, due expiry timer, each racing Close / CloseAll / CloseAndDelete / DropDataStore, and pairs of shutdown calls, memory/disk x handles; every schedule within the deviation bound: no panic (any goroutine), no deadlock, no goroutine or lock left behind, follow-up calls on this and another bucket return.", "3/C20"),
+    "C20": ("SCHED", "60 scenarios: writer, feed start-up, view update_after, due expiry timer, each racing Close / CloseAll / CloseAndDelete / DropDataStore, and pairs of shutdown calls, memory/disk x handles; every schedule within the deviation bound: no panic (any goroutine), no deadlock, no goroutine or lock left behind, follow-up calls on this and another bucket return.", "3/C20"),
 }
 
 ALL = ["C%02d" % i for i in range(1, 21)]
